@@ -4,7 +4,7 @@
 out=$1; pid=$2; rnd=$3
 wt=/tmp/adopt_$pid
 git -C /repo worktree add -q $wt HEAD || exit 9
-for m in $out/mutant*/; do
+for m in $out/mutant[0-9]*/; do
   k=$(basename $m | sed 's/mutant//')
   id=${pid}_r${rnd}_$k
   ( cd $wt && git checkout -q -- . )
